@@ -3,6 +3,7 @@ package c02
 
 import (
 	"fmt"
+	"os"
 	"strings"
 
 	"verif/harness/llvmoracle"
@@ -79,6 +80,9 @@ func lineOf(d, prefix string) string {
 // Run is the C02 check.
 func Run(tier, replay string) {
 	rep := mbt.NewReport("C02", tier, "translation_validation")
+	if tier == "thorough" {
+		os.Setenv("VERIF_MODULES_PAIRS", "all")
+	}
 	rep.Rule = "a program is an input the parser accepts; y = print(parse(x)) must be accepted, print(parse(y)) = y byte for byte, and the structural digests (sharing and cycles included) of parse(x) and parse(y) must agree. Sources as in C01 plus inputs LLVM does not arbitrate (non-canonical spellings, s0x literals, repository tests that LLVM's verifier rejects)"
 	var ins []corpus.Input
 	if replay != "" {
